@@ -254,6 +254,38 @@ theorem no_dangling (P : Prog) (ne nl fuel : Nat) (ops : List Action) :
   rw [h.sim.1]
   exact hp.sim.nofault
 
+/-- **What is left of a destroyed object.**  In every state that passes the audit (by `no_dangling`: every state any run
+    reaches, at any nesting depth): the only places that still mention a destroyed listener are slot entries marked
+    `disconnected` (which exist only while an emission of that signal runs; no loop of Callback.cpp follows or matches
+    them: `Slot.isMatch`, `dropSignal`, `nextConnected`, `purge` test the state first); a destroyed emitter has no signal
+    data, no listener stores a pair under its key (the key itself may stay in the listener's map with an empty list, which
+    `~Listener` walks without following the key), and the innermost activation of each of its signals is invalidated (an
+    invalidated activation reads neither its emitter nor its data).  So a new object that gets the address of a destroyed
+    one finds nothing that is matched against or followed through that address.  (The model itself gives a new object a
+    new id; a model that re-uses ids and its refinement to this one are OPEN, see the end of this file; the real code is
+    run with exact address reuse by the `reuse` lines of the correspondence run.) -/
+theorem stale_mentions_are_dead_data {m : State} (h : Audit m) :
+    (∀ l, m.listeners l = none → ∀ e g d, m.data e g = some d → ∀ x ∈ d.slots,
+      (x.receiver = l ∨ x.object = l) → x.state = .disconnected) ∧
+    (∀ e, m.emitters e = none →
+      (∀ g, m.data e g = none) ∧ (∀ l li, m.listeners l = some li → li.sigs e = []) ∧
+      ∀ g i, topOf m.frames (e, g) = some i → ∃ f, frameAt m.frames i = some f ∧ f.invalidated = true) := by
+  refine ⟨?_, ?_⟩
+  · intro l hl e g d hd x hx hm
+    apply Classical.byContradiction
+    intro hn
+    obtain ⟨hr, ho⟩ := h.recv e g d hd x hx hn
+    rcases hm with hm | hm
+    · rw [hm, hl] at hr; simp at hr
+    · rw [ho] at hm; rw [hm, hl] at hr; simp at hr
+  · intro e he
+    refine ⟨fun g => by simp [State.data, he], ?_, fun g i => h.deadInv e g i he⟩
+    intro l li hl
+    apply Classical.byContradiction
+    intro hne
+    have := (h.lemit l li e hl hne).1
+    rw [he] at this; simp at this
+
 /-- **The two sides are inverse to each other after every top-level call.**  After any history (the
     statement is for every list `ops`, hence for every prefix of a history: after EVERY top-level call), for
     every emitter, signal, listener and slot, destroyed or never used objects included: the number of
@@ -529,5 +561,16 @@ example : (audited.connect 0 0 0 0 dangling).fault = true := by
 example : Audit midModel :=
   audit_of_sim (sim_begin 0 0 (sim_connect 0 0 0 0 sim_init rfl rfl) rfl : Sim midModel midSpec _)
 example : (exec machine d18 5 (Run.init dangling 1 1) (.acts [.emit 0 0 0])).bad = true := rfl
+
+/-
+  OPEN: a model that re-uses object ids.  `Run.prim` gives a re-created object (`newL` / `newE`) an id never used before,
+  while the allocator may hand out the address of a destroyed object.  Wanted: an evaluator `execR` whose `newL` / `newE`
+  revive the old id, and the theorem that for every program its log and (up to the renaming of the revived ids) its
+  bookkeeping equal those of `exec` — i.e. a simulation `R_ρ` between two copies of `machine` that relates live ids by a
+  partial bijection `ρ` and leaves the receiver/object fields of `disconnected` entries, keys with empty lists and the
+  data of invalidated frames unconstrained.  Proved towards it: `stale_mentions_are_dead_data` (these are the only
+  places a destroyed id occurs, in every reachable state).  Missing: the nine preservation lemmas for `R_ρ`.  The
+  real code is driven through exact address reuse on every run (`reuse` lines: all programs that re-create an object).
+-/
 
 end Nstd.Callback
